@@ -19,7 +19,7 @@ import gc
 import random
 
 from ..prng import Streams, h64
-from .base import standard_run, Stop, reach
+from .base import standard_run, Stop, reach, c3
 
 MACHINE = 'graph'
 NAMES = ['a', 'b', 'c']
@@ -426,6 +426,8 @@ def execute(program, ctx, mode):
                         r2 = [lab(x) for x in zro.ro(S)]
                         if r2 != sro and [x for x in r2 if x != 'Interface'] != mro[s]:
                             ctx.violation('C03', 'ro()!=C3', 'C03|ro()!=python-mro', {'node': s, 'ro': r2, 'python': mro[s]})
+        if 'C03' in props and (final or selected(k, 'generic-mirror')):
+            check_generic(k)
         if 'C02' in props:
             for I in [l for l in L if kind[l] == 'I'][:3]:
                 if _empty.isOrExtends(node[I]) or _empty.extends(node[I]):
@@ -433,6 +435,61 @@ def execute(program, ctx, mode):
             if not _empty.isOrExtends(Interface) or tuple(_empty.__sro__) != (_empty, Interface):
                 ctx.violation('C02', '_empty', 'C02|_empty-changed', {})
         ctx.log('chk', h64(tuple(dig)) % 10 ** 9)
+
+    def check_generic(k):
+        """The linearization functions of `ro` on plain objects that merely have `__bases__` (the documented input), shaped
+        like the current model graph with the base order of one node reversed -- so that inconsistent shapes are met in
+        every process configuration, also under ZOPE_INTERFACE_STRICT_IRO=1 where no inconsistent *specification* can be
+        built.  Oracle: the independent C3 of machines/base.py."""
+        class Gen:
+            def __init__(self, name):
+                self.__name__ = name
+                self.__bases__ = ()
+
+            def __repr__(self):
+                return '<Gen %s>' % self.__name__
+        L = live()
+        gmap = {l: [b for b in bases_of[l] if b != 'Interface' and b in L] for l in L}
+        if L:
+            victim = L[h64(k, 'victim') % len(L)]
+            if h64(k, 'reverse') % 2:
+                gmap[victim] = list(reversed(gmap[victim]))
+        G = {l: Gen(l) for l in L}
+        for l in L:
+            G[l].__bases__ = tuple(G[b] for b in gmap[l])
+        memo = {}
+        for l in L:
+            try:
+                want = c3(l, gmap, memo)
+            except ValueError:
+                want = None
+            ctx.probe('generic-consistent' if want is not None else 'generic-inconsistent')
+            got = {}
+            for label_, kw in (('strict=True', {'strict': True}), ('strict=False', {'strict': False})):
+                try:
+                    got[label_] = [x.__name__ for x in zro.ro(G[l], **kw)]
+                except ICE:
+                    got[label_] = 'raise'
+            try:
+                got['is_consistent'] = bool(zro.is_consistent(G[l]))
+            except ICE:
+                got['is_consistent'] = 'raise'
+            bad = None
+            if got['is_consistent'] != (want is not None):
+                bad = 'is_consistent|%s' % ('raises' if got['is_consistent'] == 'raise' else (
+                    'True-although-no-C3' if want is None else 'False-although-C3-exists'))
+            elif (got['strict=True'] == 'raise') != (want is None):
+                bad = 'ro(strict=True)|%s' % ('accepts-although-no-C3' if want is None else 'raises-although-C3-exists')
+            elif got['strict=False'] == 'raise':
+                bad = 'ro(strict=False)|raises'
+            elif want is not None and not legacy_env and (got['strict=True'] != want or got['strict=False'] != want):
+                bad = 'ro()!=C3'
+            else:
+                r = got['strict=False']
+                if r[0] != l or len(set(r)) != len(r) or set(r) != reach(gmap, l) | {l}:
+                    bad = 'ro(strict=False)|not-a-linearization'
+            if bad:
+                ctx.violation('C03', 'generic', 'C03|plain-objects|' + bad, {'node': l, 'bases': gmap, 'got': got, 'want': want})
 
     def check_fresh():
         """C02 second oracle: a freshly built graph of the same shape answers the same."""
